@@ -75,6 +75,7 @@ package service
 //@ ensures [C16] every_by_id_marker_has_its_twin: idxAllA(raw)
 //@ ensures [C16] every_by_binding_marker_is_a_twin: idxAllB(raw)
 //@ ensures [C16] no_orphan_request_or_response_record_kept: recInv(raw)
+//@ ensures [C15] definitions_bindings_and_provider_owners_are_for_life: forLife(old(raw), raw)
 
 // EndBlocker$1 = expiredRequestHandler(requestID, request): called for every still-pending request of an expired batch.
 //@ func EndBlocker$1
@@ -112,6 +113,7 @@ package service
 //@ after the_escrow_can_always_pay_the_refund assume earnings_untouched pending_total_drops_by_this_fee pending_requests_stay_well_formed_kept
 //@ ensures [C01,C02] escrow_exactly_backed_kept: escInv(raw, bal)
 //@ after escrow_exactly_backed_kept assume the_escrow_can_always_pay_the_refund earnings_untouched pending_total_drops_by_this_fee timeout_slashes_the_binding_and_refunds_the_consumer super_mode_neither_slashes_nor_refunds
+//@ ensures [C15] definitions_bindings_and_provider_owners_are_for_life: forLife(old(raw), raw)
 
 // EndBlocker$2 = expiredRequestBatchHandler(requestContextID, requestContext): called for every entry of the expiry queue at this height.
 //@ func EndBlocker$2
@@ -133,6 +135,7 @@ package service
 //@ loop IterateActiveRequests.0 invariant pos_in_range: 0 <= iterator_pos && iterator_pos <= itCount(iterator_snap, iterator_pfx)
 //@ loop IterateActiveRequests.0 invariant snapshot: iterator_snap == old(raw) && iterator_pfx == PActByCtx(requestContextID, batchCounter) && batchCounter == old(requestContext).BatchCounter && cblog == old(cblog)
 //@ loop IterateActiveRequests.0 invariant wf: WF(raw) && depInv(raw, bal)
+//@ loop IterateActiveRequests.0 invariant [C15] for_life: forLife(iterator_snap, raw)
 //@ loop IterateActiveRequests.0 invariant [C16] both_pending_indexes_list_the_same_requests: idxInv(raw)
 //@ loop IterateActiveRequests.0 invariant no_binding_created: forall s Str, p Bytes :: {raw[KBind(s, p)]} bindFound(raw, s, p) ==> bindFound(iterator_snap, s, p)
 //@ loop IterateActiveRequests.0 invariant [C01] escrow_exactly_backed: escInv(raw, bal) && earnNonneg(raw)
@@ -167,6 +170,7 @@ package service
 //@ preserves [C01,C02] escrow_exactly_backed: escInv(raw, bal) && earnNonneg(raw)
 //@ ensures [C01,C15] price_terms_untouched_no_binding_created: (forall k Key :: {raw[k]} is_KPricing(k) ==> raw[k] == old(raw)[k]) &&
 //@      (forall s Str, p Bytes :: {raw[KBind(s, p)]} bindFound(raw, s, p) ==> bindFound(old(raw), s, p))
+//@ ensures [C15] definitions_bindings_and_provider_owners_are_for_life: forLife(old(raw), raw)
 
 // ---------------------------------------------------------------- message handlers (C05: authority; a message debits only its signer)
 //@ func handleMsgDefineService
@@ -183,6 +187,7 @@ package service
 //@ modifies raw
 //@ ensures [C15] defines_once: err == NoErr ==> !defFound(old(raw), msg.Name) && raw == old(raw)[KDef(msg.Name) := raw[KDef(msg.Name)]]
 //@ ensures error_changes_nothing: err != NoErr ==> raw == old(raw)
+//@ ensures [C15] definitions_bindings_and_provider_owners_are_for_life: forLife(old(raw), raw)
 
 //@ func handleMsgBindService
 //@ vars service.handleMsgBindService: ctx=github.com/cosmos/cosmos-sdk/types.Context#0 k=github.com/irismod/service/keeper.Keeper#0 msg=*github.com/irismod/service/types.MsgBindService#0 found=bool#0 err=error#0
@@ -204,6 +209,7 @@ package service
 //@ ensures [C05] provider_keeps_its_owner: err == NoErr ==> (ownerFound(old(raw), msg.Provider) ==> addrEq(msg.Owner, ownerOf(old(raw), msg.Provider)))
 //@ ensures [C05] only_the_signer_is_debited: forall a Bytes, d Str :: {bal[a][d]} a != msg.Owner ==> bal[a][d] >= old(bal)[a][d]
 //@ ensures error_changes_nothing: err != NoErr ==> raw == old(raw) && bal == old(bal)
+//@ ensures [C15] definitions_bindings_and_provider_owners_are_for_life: forLife(old(raw), raw)
 
 //@ func handleMsgUpdateServiceBinding
 //@ vars service.handleMsgUpdateServiceBinding: ctx=github.com/cosmos/cosmos-sdk/types.Context#0 k=github.com/irismod/service/keeper.Keeper#0 msg=*github.com/irismod/service/types.MsgUpdateServiceBinding#0 err=error#0
@@ -223,6 +229,7 @@ package service
 //@ requires a2_validated: (forall d Str :: amt(msg.Deposit, d) >= 0)
 //@ ensures [C05] only_the_binding_owner: err == NoErr ==> bindFound(old(raw), msg.ServiceName, msg.Provider) && addrEq(msg.Owner, bindOf(old(raw), msg.ServiceName, msg.Provider).Owner)
 //@ ensures [C05] only_the_signer_is_debited: forall a Bytes, d Str :: {bal[a][d]} a != msg.Owner ==> bal[a][d] >= old(bal)[a][d]
+//@ ensures [C15] definitions_bindings_and_provider_owners_are_for_life: forLife(old(raw), raw)
 
 //@ func handleMsgSetWithdrawAddress
 //@ vars service.handleMsgSetWithdrawAddress: ctx=github.com/cosmos/cosmos-sdk/types.Context#0 k=github.com/irismod/service/keeper.Keeper#0 msg=*github.com/irismod/service/types.MsgSetWithdrawAddress#0
@@ -238,6 +245,7 @@ package service
 //@ modifies raw
 //@ ensures [C13,C05] only_the_signers_own_withdrawal_address_changes: raw == old(raw)[KWAddr(msg.Owner) := raw[KWAddr(msg.Owner)]] && withdrawAddrOf(raw, msg.Owner) == msg.WithdrawAddress
 //@ requires a2_validated: len(msg.WithdrawAddress) > 0
+//@ ensures [C15] definitions_bindings_and_provider_owners_are_for_life: forLife(old(raw), raw)
 
 //@ func handleMsgDisableServiceBinding
 //@ vars service.handleMsgDisableServiceBinding: ctx=github.com/cosmos/cosmos-sdk/types.Context#0 k=github.com/irismod/service/keeper.Keeper#0 msg=*github.com/irismod/service/types.MsgDisableServiceBinding#0 err=error#0
@@ -255,6 +263,7 @@ package service
 //@ preserves [C03] deposits_in_custody: depInv(raw, bal)
 //@ ensures [C05] only_the_binding_owner: err == NoErr ==> bindFound(old(raw), msg.ServiceName, msg.Provider) && addrEq(msg.Owner, bindOf(old(raw), msg.ServiceName, msg.Provider).Owner)
 //@ ensures error_changes_nothing: err != NoErr ==> raw == old(raw)
+//@ ensures [C15] definitions_bindings_and_provider_owners_are_for_life: forLife(old(raw), raw)
 
 //@ func handleMsgEnableServiceBinding
 //@ vars service.handleMsgEnableServiceBinding: ctx=github.com/cosmos/cosmos-sdk/types.Context#0 k=github.com/irismod/service/keeper.Keeper#0 msg=*github.com/irismod/service/types.MsgEnableServiceBinding#0 err=error#0
@@ -275,6 +284,7 @@ package service
 //@ ensures [C05] only_the_binding_owner: err == NoErr ==> bindFound(old(raw), msg.ServiceName, msg.Provider) && addrEq(msg.Owner, bindOf(old(raw), msg.ServiceName, msg.Provider).Owner)
 //@ ensures [C05] only_the_signer_is_debited: forall a Bytes, d Str :: {bal[a][d]} a != msg.Owner ==> bal[a][d] >= old(bal)[a][d]
 //@ ensures error_changes_nothing: err != NoErr ==> raw == old(raw) && bal == old(bal)
+//@ ensures [C15] definitions_bindings_and_provider_owners_are_for_life: forLife(old(raw), raw)
 
 //@ func handleMsgRefundServiceDeposit
 //@ vars service.handleMsgRefundServiceDeposit: ctx=github.com/cosmos/cosmos-sdk/types.Context#0 k=github.com/irismod/service/keeper.Keeper#0 msg=*github.com/irismod/service/types.MsgRefundServiceDeposit#0 err=error#0
@@ -293,6 +303,7 @@ package service
 //@ ensures [C05] only_the_binding_owner: err == NoErr ==> bindFound(old(raw), msg.ServiceName, msg.Provider) && addrEq(msg.Owner, bindOf(old(raw), msg.ServiceName, msg.Provider).Owner)
 //@ ensures [C05] no_ordinary_account_is_debited: forall a Bytes, d Str :: {bal[a][d]} a != depositAcc ==> bal[a][d] >= old(bal)[a][d]
 //@ ensures error_changes_nothing: err != NoErr ==> raw == old(raw) && bal == old(bal)
+//@ ensures [C15] definitions_bindings_and_provider_owners_are_for_life: forLife(old(raw), raw)
 
 //@ func handleMsgPauseRequestContext
 //@ vars service.handleMsgPauseRequestContext: ctx=github.com/cosmos/cosmos-sdk/types.Context#0 k=github.com/irismod/service/keeper.Keeper#0 msg=*github.com/irismod/service/types.MsgPauseRequestContext#0 err=error#0 err=error#1
@@ -311,6 +322,7 @@ package service
 //@ ensures [C09] pause_only: err == NoErr ==> (let c := ctxOf(old(raw), msg.RequestContextId) in c.Repeated && c.State == RUNNING &&
 //@      raw == old(raw)[KCtx(msg.RequestContextId) := enc_RequestContext(c[State := PAUSED])])
 //@ ensures error_changes_nothing: err != NoErr ==> raw == old(raw)
+//@ ensures [C15] definitions_bindings_and_provider_owners_are_for_life: forLife(old(raw), raw)
 
 //@ func handleMsgStartRequestContext
 //@ vars service.handleMsgStartRequestContext: ctx=github.com/cosmos/cosmos-sdk/types.Context#0 k=github.com/irismod/service/keeper.Keeper#0 msg=*github.com/irismod/service/types.MsgStartRequestContext#0 err=error#0 err=error#1
@@ -328,6 +340,7 @@ package service
 //@      ctxFound(old(raw), msg.RequestContextId) && addrEq(msg.Consumer, c.Consumer) && len(c.ModuleName) == 0)
 //@ ensures [C09] start_only_from_paused: err == NoErr ==> ctxOf(old(raw), msg.RequestContextId).State == PAUSED && ctxOf(raw, msg.RequestContextId) == ctxOf(old(raw), msg.RequestContextId)[State := RUNNING]
 //@ ensures error_changes_nothing: err != NoErr ==> raw == old(raw)
+//@ ensures [C15] definitions_bindings_and_provider_owners_are_for_life: forLife(old(raw), raw)
 
 //@ func handleMsgKillRequestContext
 //@ vars service.handleMsgKillRequestContext: ctx=github.com/cosmos/cosmos-sdk/types.Context#0 k=github.com/irismod/service/keeper.Keeper#0 msg=*github.com/irismod/service/types.MsgKillRequestContext#0 err=error#0 err=error#1
@@ -346,6 +359,7 @@ package service
 //@ ensures [C09] kill_only_repeated: err == NoErr ==> (let c := ctxOf(old(raw), msg.RequestContextId) in c.Repeated &&
 //@      raw == old(raw)[KCtx(msg.RequestContextId) := enc_RequestContext(c[State := COMPLETED])])
 //@ ensures error_changes_nothing: err != NoErr ==> raw == old(raw)
+//@ ensures [C15] definitions_bindings_and_provider_owners_are_for_life: forLife(old(raw), raw)
 
 //@ func handleMsgUpdateRequestContext
 //@ vars service.handleMsgUpdateRequestContext: ctx=github.com/cosmos/cosmos-sdk/types.Context#0 k=github.com/irismod/service/keeper.Keeper#0 msg=*github.com/irismod/service/types.MsgUpdateRequestContext#0 err=error#0 err=error#1
@@ -368,6 +382,7 @@ package service
 //@ ensures [C09] never_a_completed_context_identity_kept: err == NoErr ==> (let c := ctxOf(old(raw), msg.RequestContextId) in let n := ctxOf(raw, msg.RequestContextId) in
 //@      c.State != COMPLETED && sameIdentity(c, n) && n.State == c.State && n.BatchCounter == c.BatchCounter)
 //@ ensures error_changes_nothing: err != NoErr ==> raw == old(raw)
+//@ ensures [C15] definitions_bindings_and_provider_owners_are_for_life: forLife(old(raw), raw)
 
 //@ func handleMsgCallService
 //@ vars service.handleMsgCallService: ctx=github.com/cosmos/cosmos-sdk/types.Context#0 k=github.com/irismod/service/keeper.Keeper#0 msg=*github.com/irismod/service/types.MsgCallService#0 reqContextID=github.com/tendermint/tendermint/libs/bytes.HexBytes#0 err=error#0 moduleService=*github.com/irismod/service/types.ModuleService#0 found=bool#0 err=error#1
@@ -391,6 +406,7 @@ package service
 //@ ensures [C10,C01] a_module_service_call_keeps_the_invariants: err == NoErr && moduleSvcFound(msg.ServiceName) ==>
 //@      schedInv(raw) && actInv(raw) && cntInv(raw) && futInv(raw, ctxHeight(ctx)) && cadInv(raw, maxNext(ghostMaxTot, raw))
 //@ ensures error_changes_no_record: err != NoErr && !moduleSvcFound(msg.ServiceName) ==> raw == old(raw) && bal == old(bal)
+//@ ensures [C15] definitions_bindings_and_provider_owners_are_for_life: forLife(old(raw), raw)
 
 //@ func handleMsgRespondService
 //@ vars service.handleMsgRespondService: ctx=github.com/cosmos/cosmos-sdk/types.Context#0 k=github.com/irismod/service/keeper.Keeper#0 msg=*github.com/irismod/service/types.MsgRespondService#0 request=github.com/irismod/service/types.Request#0 err=error#0
@@ -409,6 +425,7 @@ package service
 //@ ensures [C05,C08] only_the_designated_provider_while_pending: err == NoErr ==> requestFound(old(raw), msg.RequestId) && addrEq(msg.Provider, reqProv(old(raw), msg.RequestId)) && isActive(old(raw), msg.RequestId)
 //@ ensures [C08] rejected_response_changes_nothing: (!requestFound(old(raw), msg.RequestId) || !addrEq(msg.Provider, reqProv(old(raw), msg.RequestId)) || !isActive(old(raw), msg.RequestId))
 //@      ==> err != NoErr && raw == old(raw) && bal == old(bal) && supply == old(supply)
+//@ ensures [C15] definitions_bindings_and_provider_owners_are_for_life: forLife(old(raw), raw)
 
 //@ func handleMsgWithdrawEarnedFees
 //@ vars service.handleMsgWithdrawEarnedFees: ctx=github.com/cosmos/cosmos-sdk/types.Context#0 k=github.com/irismod/service/keeper.Keeper#0 msg=*github.com/irismod/service/types.MsgWithdrawEarnedFees#0 err=error#0
@@ -429,6 +446,7 @@ package service
 //@ ensures [C05] only_the_escrow_is_debited: err == NoErr ==> (forall a Bytes, d Str :: {bal[a][d]} a != requestAcc ==> bal[a][d] >= old(bal)[a][d])
 //@ requires [C01] a16_withdrawal_address_is_an_ordinary_account: ordinary(withdrawAddrOf(raw, msg.Owner))
 //@ requires [C13] owner_total_is_the_sum_of_its_providers_earnings: len(msg.Provider) == 0 ==> ownerTotalOK(raw, msg.Owner)
+//@ ensures [C15] definitions_bindings_and_provider_owners_are_for_life: forLife(old(raw), raw)
 
 // ---------------------------------------------------------------- zero-height export preparation (C19)
 //@ func PrepForZeroHeightGenesis
@@ -476,6 +494,7 @@ package service
 //@      (iterator_snap[KNewQ(ctxHeight(ctx), id)] == bnil || itIdx(iterator_snap, iterator_pfx, KNewQ(ctxHeight(ctx), id)) < iterator_pos) ==> raw[KNewQ(ctxHeight(ctx), id)] == bnil
 //@ loop IterateNewRequestBatch.0 invariant [C05] debited_so_far_issued_a_batch: forall a Bytes, d Str :: {bal[a][d]} ordinary(a) && bal[a][d] < old(bal)[a][d] ==>
 //@      (exists id Bytes :: issuedNow(raw, id, a))
+//@ loop IterateNewRequestBatch.0 invariant [C15] for_life: forLife(old(raw), raw)
 //@ loop IterateNewRequestBatch.0 invariant unvisited_entries_untouched: forall id Bytes :: {raw[KNewQ(ctxHeight(ctx), id)]}
 //@      (iterator_snap[KNewQ(ctxHeight(ctx), id)] != bnil && itIdx(iterator_snap, iterator_pfx, KNewQ(ctxHeight(ctx), id)) >= iterator_pos) ==>
 //@      raw[KNewQ(ctxHeight(ctx), id)] == iterator_snap[KNewQ(ctxHeight(ctx), id)]
@@ -485,6 +504,7 @@ package service
 //@      (iterator_snap[KNewQ(ctxHeight(ctx), id)] != bnil && itIdx(iterator_snap, iterator_pfx, KNewQ(ctxHeight(ctx), id)) >= iterator_pos) ==>
 //@      raw[KCtx(id)] == iterator_snap[KCtx(id)]
 //@ loop IterateExpiredRequestBatch.0 invariant [C05] no_ordinary_account_debited_so_far: forall a Bytes, d Str :: {bal[a][d]} ordinary(a) ==> bal[a][d] >= old(bal)[a][d]
+//@ loop IterateExpiredRequestBatch.0 invariant [C15] for_life: forLife(old(raw), raw)
 //@ loop IterateExpiredRequestBatch.0 invariant queues_ok: idxInv(raw) && recInv(raw) && schedInv(raw) && cntInv(raw) && futInv(raw, ctxHeight(ctx)) && cadInv(raw, ghostMaxTot)
 //@ loop IterateExpiredRequestBatch.0 invariant [C01] escrow_exactly_backed: escInv(raw, bal) && earnNonneg(raw) && pricesInBase(raw)
 //@ loop IterateExpiredRequestBatch.0 invariant unvisited_contexts_untouched: forall id Bytes :: {raw[KCtx(id)]} {raw[KExpH(id)]} {raw[KNewH(id)]}
@@ -492,6 +512,7 @@ package service
 //@      raw[KCtx(id)] == iterator_snap[KCtx(id)] && raw[KExpH(id)] == iterator_snap[KExpH(id)] && raw[KNewH(id)] == iterator_snap[KNewH(id)]
 //@ preserves [C01] a15_prices_in_base_denom: pricesInBase(raw)
 //@ preserves [C01,C02] escrow_exactly_backed: escInv(raw, bal) && earnNonneg(raw)
+//@ ensures [C15] definitions_bindings_and_provider_owners_are_for_life: forLife(old(raw), raw)
 
 // ---------------------------------------------------------------- genesis export / import (C19, second half)
 //@ func ExportGenesis
